@@ -9,6 +9,7 @@ import (
 	"encoding/hex"
 	"encoding/json"
 	"fmt"
+	"math/big"
 	"os"
 	"runtime"
 	"strconv"
@@ -198,6 +199,16 @@ func Ite64(c bool, a, b uint64) uint64 {
 		return a
 	}
 	return b
+}
+
+// IntMode switches the engine to the mathematical-integer encoding for this harness (must be the first
+// call). No effect natively. (intercepted)
+func IntMode() {}
+
+// CongruentMod reports x ≡ y (mod m) for a concrete modulus m. (intercepted)
+func CongruentMod(x, y, m *big.Int) bool {
+	d := new(big.Int).Sub(x, y)
+	return d.Mod(d, m).Sign() == 0
 }
 
 // Panics runs f and reports whether a Go panic escaped from it (assertion/assumption signals pass through).
